@@ -1,4 +1,6 @@
 import FindVerif.Theorems.C05
+import FindVerif.Theorems.C06Layout
+import FindVerif.Theorems.C06Args
 #print axioms FV.C05_order_safe
 #print axioms FV.C05_keyword_chars
 #print axioms FV.C05_front_safe
@@ -14,3 +16,20 @@ import FindVerif.Theorems.C05
 #print axioms FV.C05_numeric_test
 #print axioms FV.C05_word_styles
 #print axioms FV.C05_printf
+#print axioms FV.C06_layout
+#print axioms FV.C06_layout_tree
+#print axioms FV.writes_test_unary
+#print axioms FV.writes_action_unary
+#print axioms FV.writes_test_nullary
+#print axioms FV.writes_action_nullary
+#print axioms FV.argWrites_word
+#print axioms FV.argWrites_number
+#print axioms FV.argWrites_format
+#print axioms FV.argWrites_cmp
+#print axioms FV.argWrites_size
+#print axioms FV.argWrites_time
+#print axioms FV.argWrites_perm_octal
+#print axioms FV.argWrites_types
+#print axioms FV.writes_test_binary
+#print axioms FV.writes_action_binary
+#print axioms FV.argExact_word
